@@ -178,11 +178,26 @@ func pairLawsTagged(a, b eval.Score) (string, string) {
 }
 
 func checkC09(c *harness.Check) {
+	// the constructors are faithful: a heuristic score holds exactly the value it was built from
+	// (the order is stated over those values, not over what a constructor makes of them)
+	for _, f := range []float32{0, 1, -1, 103, 1e10, -1e10, math.MaxFloat32, -math.MaxFloat32, float32(math.Inf(1)), float32(math.Inf(-1)), math.SmallestNonzeroFloat32, 20000, 32767.5} {
+		if got := eval.HeuristicScore(eval.Pawns(f)); got.Type != eval.Heuristic || math.Float32bits(float32(got.Pawns)) != math.Float32bits(f) {
+			c.Violation(fmt.Sprintf("C09/constructor %v", f), fmt.Sprintf("HeuristicScore(%v) holds %v", f, got), "C09/note", nil)
+		}
+	}
+	for k := -128; k <= 127; k++ {
+		if k == 0 {
+			continue
+		}
+		if got := eval.MateInXScore(int8(k)); got.Type != eval.MateInX || got.Mate != int8(k) {
+			c.Violation(fmt.Sprintf("C09/constructor mate %d", k), fmt.Sprintf("MateInXScore(%d) holds %v", k, got), "C09/note", nil)
+		}
+	}
 	base := scoreAlphabet()
 	al := scoreClosure(base)
 	c.SetExtra("constructor_alphabet", len(base))
 	c.SetExtra("closure_under_negate_inc_dec", len(al))
-	c.Rule = fmt.Sprintf("alphabet of %d scores: won, lost, mate k for every k in [-128,127]\\{0}, %d float32 heuristics incl. +-0, denormals, 1-ulp neighbours, +-max, +-Inf, round numbers and integer widths (127 .. 10^6) with mate distances added and subtracted, CLOSED (breadth-first, values kept apart structurally) under the score-producing operations Negate / IncrementMateDistance / DecrementMateDistance, so that representations the constructors never build are members too; ALL pairs: Less vs rank tuple, trichotomy with ==, negation involutive and order-reversing, one more ply order-preserving and equal to the model's, Max/Min; ALL triples: transitivity; thorough: unary/neighbour laws over all 2^32 float32 payloads. distinct_nontrivial = pairs of distinct scores", len(base), len(base)-257)
+	c.Rule = fmt.Sprintf("alphabet of %d scores: won, lost, mate k for every k in [-128,127]\\{0}, %d float32 heuristics incl. +-0, denormals, 1-ulp neighbours, +-max, +-Inf, round numbers and integer widths (127 .. 10^6) with mate distances added and subtracted, the constructors hold exactly what they were given (a heuristic value, a mate distance); CLOSED (breadth-first, values kept apart structurally) under the score-producing operations Negate / IncrementMateDistance / DecrementMateDistance, so that representations the constructors never build are members too; ALL pairs: Less vs rank tuple, trichotomy with ==, negation involutive and order-reversing, one more ply order-preserving and equal to the model's, Max/Min; ALL triples: transitivity; thorough: unary/neighbour laws over all 2^32 float32 payloads. distinct_nontrivial = pairs of distinct scores", len(base), len(base)-257)
 	c.States.Store(int64(len(al)))
 	harness.Parallel(len(al), func(i int) {
 		a := al[i]
